@@ -69,10 +69,12 @@ def tier_from_env(default="quick") -> str:
 
 
 @contextlib.contextmanager
-def lean_lock():
+def lean_lock(shared: bool = False):
+    """Exclusive while translating / building (the driver executable may be re-linked), shared while the
+    driver executable is being run, so that a check running next to this one never finds it missing."""
     LEAN.mkdir(exist_ok=True)
-    with open(LEAN / ".lock", "w") as fh:
-        fcntl.flock(fh, fcntl.LOCK_EX)
+    with open(LEAN / ".lock", "a") as fh:
+        fcntl.flock(fh, fcntl.LOCK_SH if shared else fcntl.LOCK_EX)
         try:
             yield
         finally:
@@ -277,7 +279,8 @@ class Driver:
         if not requests:
             return []
         data = "".join("\t".join(self.esc(f) for f in r) + "\n" for r in requests)
-        p = subprocess.run([str(DRIVER)], input=data, capture_output=True, text=True, timeout=3600)
+        with lean_lock(shared=True):
+            p = subprocess.run([str(DRIVER)], input=data, capture_output=True, text=True, timeout=3600)
         if p.returncode != 0:
             raise Infra(f"driver failed rc={p.returncode}: {p.stderr[-300:]}")
         lines = p.stdout.split("\n")
